@@ -45,6 +45,11 @@ open SST.Generated.ResFlow
 def acqOf (f : String) : List Acq := acquisitions.filter (fun r => r.fn == f)
 def relOf (f : String) : List Rel := releases.filter (fun r => r.fn == f)
 
+/-- the same rows, in any order (rows that stand in the two arms of one conditional have no order worth stating: inverting
+an `if … else` swaps them) -/
+def sameRows {α : Type} [DecidableEq α] (a b : List α) : Bool :=
+  a.length == b.length && a.all (b.contains ·) && b.all (a.contains ·)
+
 def isUnknown : Disp → Bool
   | .unknown _ => true
   | _ => false
@@ -181,10 +186,15 @@ theorem failed_constructors_give_back_what_they_opened :
         (fun f => (acqOf f).map (fun r => (r.callee, r.disp, r.sites)))) =
       [[("recordio/proto.NewReader", Disp.closedOnAllPaths, ["defer"])], [("recordio/proto.NewReader", Disp.closedOnAllPaths, ["defer"])],
        [("recordio/proto.NewReader", Disp.closedOnAllPaths, ["defer"])]] ∧
-    (acqOf "sstables.NewSSTableReader").map (fun r => (r.callee, r.bound, r.disp, r.sites)) =
-      [("sstables.SSTableReaderOptions.indexLoader.Load", "sstables.SSTableReader.index", Disp.returned, ["deferGuarded(errNonNil)"]),
-       ("recordio/proto.NewMMapProtoReaderWithPath", "sstables.SSTableReader.v0DataReader", Disp.returned, ["deferGuarded(errNonNil)"]),
-       ("recordio.NewMemoryMappedReaderWithPath", "sstables.SSTableReader.dataReader", Disp.returned, ["deferGuarded(errNonNil)"])] ∧
+    -- (the index first; then the data reader of the table's version — two arms of one conditional, in either order)
+    ((acqOf "sstables.NewSSTableReader").map (fun r => (r.callee, r.bound, r.disp, r.sites))).head? =
+      some ("sstables.SSTableReaderOptions.indexLoader.Load", "sstables.SSTableReader.index", Disp.returned, ["deferGuarded(errNonNil)"]) ∧
+    sameRows ((acqOf "sstables.NewSSTableReader").map (fun r => (r.callee, r.bound, r.disp, r.sites, r.cond)))
+      [("sstables.SSTableReaderOptions.indexLoader.Load", "sstables.SSTableReader.index", Disp.returned, ["deferGuarded(errNonNil)"], ""),
+       ("recordio/proto.NewMMapProtoReaderWithPath", "sstables.SSTableReader.v0DataReader", Disp.returned, ["deferGuarded(errNonNil)"],
+        "sstables/proto.MetaData.Version == 0"),
+       ("recordio.NewMemoryMappedReaderWithPath", "sstables.SSTableReader.dataReader", Disp.returned, ["deferGuarded(errNonNil)"],
+        "sstables/proto.MetaData.Version != 0")] = true ∧
     (acqOf "SSTableStreamWriter.Open").map (fun r => (r.callee, r.disp, r.sites)) =
       [("recordio/proto.NewWriter", Disp.storedIn "sstables.SSTableStreamWriter.indexWriter", ["deferGuarded(errNonNil)"]),
        ("recordio.NewFileWriter", Disp.storedIn "sstables.SSTableStreamWriter.dataWriter", ["deferGuarded(errNonNil)"]),
